@@ -21,6 +21,7 @@ re-derives the coefficient contract from the weights, straight from the property
 """
 from __future__ import annotations
 
+import json
 import math
 from fractions import Fraction
 
@@ -189,6 +190,45 @@ def apply_mutations(desc, circuits, observables):
             qc = circuits[key].copy()
             qc.add_register(ClassicalRegister(1, OBS_NAME))
             circuits[key] = qc
+        elif k == "read_definition":         # history: every placeholder's .definition is read (and the circuit drawn) before the call
+            cs_ = circuits.values() if isinstance(circuits, dict) else [circuits]
+            for c in cs_:
+                for inst in c.data:
+                    if isinstance(inst.operation, (SingleQubitQPDGate, TwoQubitQPDGate)):
+                        try:
+                            _ = inst.operation.definition
+                        except Exception:  # noqa: BLE001
+                            pass
+                c.depth()
+                c.count_ops()
+        elif k == "call_before":             # history: the same objects went through a generation already (other seed, other budget)
+            st = np.random.get_state()
+            np.random.seed(m[1])
+            try:
+                generate_cutting_experiments(circuits, observables, m[2])
+            except Exception:  # noqa: BLE001
+                pass
+            np.random.set_state(st)
+        elif k == "alias":                   # the SAME circuit object under a second label (observables copied too)
+            key = list(circuits.keys())[m[1]]
+            circuits = dict(circuits)
+            observables = dict(observables)
+            circuits["__alias__"] = circuits[key]
+            observables["__alias__"] = observables[key]
+        elif k == "fancy_suffix":            # cut ids written as "+k", "0k", " k": int() accepts them
+            new = {}
+            for key, c in circuits.items():
+                qc = c.copy()
+                for i, inst in enumerate(qc.data):
+                    if isinstance(inst.operation, SingleQubitQPDGate):
+                        op = inst.operation
+                        parts = op.label.split("_")
+                        kk = int(parts[-1])
+                        lab = "_".join(parts[:-1] + [["+%d", "0%d", " %d", "%d "][m[1] % 4] % kk])
+                        qc.data[i] = CircuitInstruction(SingleQubitQPDGate(op.basis, op.qubit_id, basis_id=op.basis_id, label=lab),
+                                                        inst.qubits, inst.clbits)
+                new[key] = qc
+            circuits = new
         elif k == "append_reset":            # trailing reset on qubit q of a partition (re-use style)
             circuits = dict(circuits)
             key = list(circuits.keys())[m[1]]
@@ -231,6 +271,15 @@ def parse_N(n):
     if n == "nan":
         return math.nan
     v = Fraction(n[0], n[1])
+    kind = n[2] if len(n) > 2 else None
+    if kind == "float":
+        return float(v)
+    if kind == "np.int64":
+        return np.int64(int(v))
+    if kind == "np.float64":
+        return np.float64(float(v))
+    if kind == "bool":
+        return True
     return int(v) if v.denominator == 1 else float(v)
 
 
@@ -366,7 +415,7 @@ def run_desc(desc):
     bases = harness_bases(circuits) if cin[0] in ("single", "dict") else None
     weights = []
     wcall = "skipped"
-    if bases is not None and (isinstance(N, (int, float)) and N >= 1):
+    if bases is not None and (isinstance(N, (int, float, np.integer, np.floating)) and N >= 1):
         np.random.seed(seed)
         wr = call_canon(generate_qpd_weights, bases, N)
         wcall = wr[0]
@@ -440,7 +489,8 @@ def run_desc(desc):
         kap *= sum((abs(c) for c in cenv[h]), Fraction(0))
     exact = (len(wfr) > 0 and all(dyadic(w, 30) for w in wfr) and total > 0 and dyadic(total, 30)
              and total.numerator & (total.numerator - 1) == 0
-             and all(dyadic(c, 12) for h in basis_handles for c in cenv[h]))
+             and all(dyadic(c, 12) for h in basis_handles for c in cenv[h])
+             and all(w.numerator.bit_length() + kap.numerator.bit_length() <= 50 for w in wfr))
     tol = Fraction(0) if exact else Fraction(1, 10 ** 12) * max(Fraction(1), kap)
 
     coq_case = (gh, gsx, coq_benv(env), [[Qc(c) for c in cs] for cs in cenv], coq_circuits, coq_obs, coq_N(desc["N"]),
@@ -534,6 +584,13 @@ def rand_items(rng, n, labels, max_cross, wire=False, preplaced=False):
         if wire and cross < max_cross and rng.integers(0, 5) == 0:
             cross += 1
             items.append(["cutwire", int(rng.integers(0, n))])
+        v = rng.random()
+        if v < 0.05:                    # mid-circuit / leading / trailing resets, barriers inside one partition
+            items.append(["reset", int(rng.integers(0, n))])
+        elif v < 0.08 and labels is not None:
+            q0 = int(rng.integers(0, n))
+            same = [q for q in range(n) if labels[q] == labels[q0]]
+            items.append(["barrier", same[: int(rng.integers(1, len(same) + 1))]])
     # every qubit gets at least one ordinary gate (no idle qubits: defect F4 is C10's/C01's business)
     for q in range(n):
         if not any(it[0] == "g" and q in it[3] for it in items):
@@ -549,11 +606,20 @@ def nmaps_of(items_or_bases):
 
 
 def pick_N(rng, nmaps, tier):
-    pool = ["inf", [1, 1], [5, 2], [10, 1], [100, 1], [5000, 1], [2, 1], [4, 1], [64, 1]]
-    prob = [0.16, 0.06, 0.1, 0.16, 0.14, 0.1, 0.06, 0.1, 0.12]
+    pool = ["inf", [1, 1], [5, 2], [10, 1], [100, 1], [5000, 1], [2, 1], [4, 1], [64, 1], "randint", "randfloat", "typed"]
+    prob = [0.15, 0.05, 0.08, 0.12, 0.1, 0.08, 0.04, 0.07, 0.08, 0.1, 0.08, 0.05]
     cap = 300 if tier == "quick" else 1000
     while True:
         n = pool[int(rng.choice(len(pool), p=prob))]
+        if n == "randint":          # any integer budget in 1..5000
+            n = [int(rng.integers(1, 5001)), 1]
+        elif n == "randfloat":      # non-dyadic float budgets
+            fl = float(rng.choice([7.3, 1000 / 3, 1.0000001, 19.99, 2.718281828, 4999.5, 0.1 * 37]))
+            f = Fraction(fl)
+            n = [f.numerator, f.denominator, "float"]
+        elif n == "typed":          # 1.0, numpy integers / floats, True
+            n = [[1, 1, "float"], [int(rng.integers(1, 200)), 1, "np.int64"], [int(rng.integers(1, 200)), 1, "np.float64"],
+                 [1, 1, "bool"]][int(rng.integers(0, 4))]
         est = nmaps if n == "inf" else min(nmaps, math.ceil(n[0] / n[1]) + 1)
         if est <= cap:
             return n
@@ -637,7 +703,16 @@ def idle_under_auto(desc):
 
 
 def emit(w, desc, stream):
-    coq_case, jc, info = run_desc(desc)
+    """Run one case and register it.  Returns (json_case, info) or (None, None) when the case is skipped."""
+    try:
+        coq_case, jc, info = run_desc(desc)
+    except Exception as e:  # noqa: BLE001  (problem construction / a mutation could not be applied: not a case)
+        w.count(stream + ".skipped", f"{type(e).__name__}")
+        return None, None
+    if jc["weights_call"] in ("refused", "crashed"):
+        # generate_qpd_weights itself raised for a num_samples >= 1: the oracle has no output to hand to the model (C04's business)
+        w.count(stream + ".skipped", "weights_oracle_raised")
+        return None, None
     if f2_routed(jc):
         group, chk = "generate_f2", "chk_generate_f2"
     elif stream == "malformed":
@@ -698,6 +773,8 @@ def generate(rng, tier, outdir):
         N = [[3, 1], [5, 1], [4, 1], [5, 2], [7, 2], [6, 1], [6, 1]][int(rng.integers(0, 7))]
         d = dict(route="pp", nq=nq, labels=labels, mut=[], obs=obs, N=N, seed=int(rng.integers(0, 2 ** 31 - 1)), items=items)
         jc, info = emit(w, d, "valid")
+        if jc is None:
+            continue
         ws = jc["weights"]
         kinds = {x[2] for x in ws}
         w.count("mixed.kinds", "+".join(sorted(kinds)))
@@ -705,6 +782,76 @@ def generate(rng, tier, outdir):
             w.count("mixed.feature", "sampled_outweighs_exact")
         if len({x[1] for x in ws}) < len(ws):
             w.count("mixed.feature", "tied_weights")
+
+    # ---- near the 1e-14 cut-off: weakly entangling rzz cuts (joint probabilities 1e-7 .. 1e-16) under an infinite and under large
+    #      budgets: every joint map above the cut-off must get its coefficient ----
+    n_near = 10 if tier == "quick" else 80
+    for i in range(n_near):
+        th = [1e-4, 2.0 ** -13, 2.0 ** -20, 2.0 ** -24, 3e-3, 2.0 ** -10][int(rng.integers(0, 6))]
+        k2 = int(rng.integers(0, 3))
+        items = [["g", "h", [], [0]], ["g", "rzz", [fr(Fraction(th))], [0, 1]], ["g", "rx", [fr(Fraction(1, 2))], [1]]]
+        if k2 == 1:
+            items.append(["g", "rzz", [fr(Fraction([1e-4, 2.0 ** -13, 0.75][int(rng.integers(0, 3))]))], [1, 0]])
+        elif k2 == 2:
+            items.append(["g", "cx", [], [0, 1]])
+        N = ["inf", "inf", [5000, 1], [1000, 1], [4999, 1]][int(rng.integers(0, 5))]
+        d = dict(route="pp", nq=2, labels=[tagged("A"), tagged("B")], mut=[], obs=[str(rng.choice(["ZZ", "XZ", "ZI"]))], N=N,
+                 seed=int(rng.integers(0, 2 ** 31 - 1)), items=items)
+        jc, info = emit(w, d, "valid")
+        if jc is not None:
+            w.count("near_cutoff.nsamples", info["nweights"])
+            w.count("near_cutoff.N", "inf" if N == "inf" else N[0])
+
+    # ---- many cuts (two-digit cut ids) under small budgets: 11-13 gates of mixed kinds across one boundary ----
+    n_many = 4 if tier == "quick" else 30
+    for i in range(n_many):
+        ncut = int(rng.integers(11, 14))
+        items = [["g", "h", [], [0]]]
+        for c in range(ncut):
+            nm = ["cx", "rzz", "cz", "cx"][int(rng.integers(0, 4))]
+            items.append(["g", nm, [fr(ANGLES[int(rng.integers(0, len(ANGLES)))])] if nm in NPAR else [],
+                          [0, 2] if c % 3 == 0 else [1, 2]])
+            if c % 4 == 1:
+                items.append(["g", "ry", [fr(Fraction(1, 4))], [int(rng.integers(0, 3))]])
+        N = [[1, 1], [4, 1], [10, 1], [3, 1]][int(rng.integers(0, 4))]
+        d = dict(route="pp", nq=3, labels=[tagged("A"), tagged("A"), tagged("B")] if i % 2 else [tagged("B"), tagged("A"), tagged("C")],
+                 mut=[], obs=["ZZZ"], N=N, seed=int(rng.integers(0, 2 ** 31 - 1)), items=items)
+        jc, info = emit(w, d, "valid")
+        if jc is not None:
+            w.count("many_cuts.ncuts", info["nbases"])
+
+    # ---- a reset is the last instruction on a qubit that IS measured by a real group (non-identity observable on it): only the
+    #      final passes may drop resets, and only leading / final / duplicate ones ----
+    n_tail = 24 if tier == "quick" else 200
+    for i in range(n_tail):
+        n = int(rng.integers(2, 5))
+        lset = LABEL_SETS[int(rng.integers(0, len(LABEL_SETS)))]
+        nparts = int(rng.integers(1, min(n, 3) + 1))
+        labels = [lset[int(rng.integers(0, nparts))] for _ in range(n)]
+        items = rand_items(rng, n, labels, int(rng.integers(1, 3)))
+        tails = [q for q in range(n) if rng.integers(0, 2)] or [0]
+        for q in tails:
+            items.append(["reset", q])
+            if rng.integers(0, 4) == 0:
+                items.append(["reset", q])
+        style = int(rng.integers(0, 3))
+        if style == 0:      # every qubit measured
+            obs = ["".join(str(rng.choice(["X", "Y", "Z"])) for _ in range(n))]
+        elif style == 1:    # a single Pauli on one of the reset qubits (pauli_indices == [k]; k == 0 for the first qubit of a partition)
+            q = tails[int(rng.integers(0, len(tails)))]
+            obs = ["".join(reversed([str(rng.choice(["X", "Y", "Z"])) if k == q else "I" for k in range(n)]))]
+        else:
+            obs = rand_obs(rng, n, [])
+        route = ["pp", "pp", "pcq"][int(rng.integers(0, 3))]
+        d = dict(route=route, nq=n, labels=[tagged(l) for l in labels], mut=[], obs=obs,
+                 N=[[10, 1], "inf", [4, 1], [100, 1]][int(rng.integers(0, 4))], seed=int(rng.integers(0, 2 ** 31 - 1)), items=items)
+        st, why = problem_stats(d)
+        if st is None or st["nmaps"] > 300:
+            w.count("reset_tail.rejected", why or "too_many_maps")
+            continue
+        jc, info = emit(w, d, "valid")
+        if jc is not None:
+            w.count("reset_tail.style", ["all_measured", "single_pauli_on_reset_qubit", "random"][style])
 
     # ---- mostly-valid stream ----
     made = 0
@@ -747,11 +894,26 @@ def generate(rng, tier, outdir):
                 d = dict(d, mut=[extra])
             elif rng.integers(0, 10) == 0 and d["route"] not in ("pp", "wire"):
                 d = dict(d, mut=[["clbits", 0, int(rng.integers(1, 3))]])
+            # history: definitions read before the call, an earlier generation on the same objects, one circuit object under two
+            # labels, cut ids written "+k" / "0k" / " k"
+            hv = rng.random()
+            if hv < 0.12:
+                d = dict(d, mut=d["mut"] + [["read_definition"]])
+            elif hv < 0.2:
+                d = dict(d, mut=d["mut"] + [["call_before", int(rng.integers(0, 1000)), [1, 3, 10][int(rng.integers(0, 3))]]])
+            elif hv < 0.25 and d["route"] in ("pp", "wire") and not d["mut"]:
+                d = dict(d, mut=[["alias", 0]])
+            elif hv < 0.31 and d["route"] in ("pp", "wire") and st["nbases"] > 0:
+                d = dict(d, mut=d["mut"] + [["fancy_suffix", int(rng.integers(0, 4))]])
+            for mm in d["mut"]:
+                w.count("valid.mutation", mm[0])
             jc, info = emit(w, d, "valid")
             made += 1
+            if jc is None:
+                continue
             w.count("valid.route", d["route"])
             w.count("valid.ncuts", info["nbases"])
-            w.count("valid.N", "inf" if N == "inf" else str(Fraction(N[0], N[1])))
+            w.count("valid.N", "inf" if N == "inf" else (N[2] if len(N) > 2 else "int/float") + ":" + (str(Fraction(N[0], N[1])) if N[0] / N[1] in (1, 2, 2.5, 4, 10, 64, 100, 5000) else "other"))
             w.count("valid.nsamples", min(info["nweights"], 50) if info["nweights"] <= 50 else ">50")
             w.count("valid.exact_arith", info["exact"])
             w.count("valid.group", jc["group"])
@@ -809,13 +971,27 @@ def generate(rng, tier, outdir):
         elif kind in ("qpd2_in_sep", "obs_reg_exists"):
             mut = [[kind, 0]]
         d = dict(desc, N=N, seed=int(rng.integers(0, 2 ** 31 - 1)), mut=mut)
-        try:
-            jc, info = emit(w, d, "malformed")
-        except Exception as e:  # noqa: BLE001  (the mutation itself could not be applied)
-            w.count("malformed.skipped", f"{kind}:{type(e).__name__}")
+        jc, info = emit(w, d, "malformed")
+        if jc is None:
+            w.count("malformed.skipped", kind)
             continue
         w.count("malformed.kind", kind)
         w.count("malformed." + kind, info["result"])
+
+    # ---- the property-level oracle must accept what the unchanged implementation returned (run.py searches failing inputs with
+    #      `judge` over ALL cases when anything breaks; an oracle that flags clean cases would produce bogus replays) ----
+    alljc = [c[1] for g in w.groups.values() for c in g["cases"]]
+    stepj = max(1, len(alljc) // (400 if tier == "quick" else 800))
+    for jc in alljc[::stepj]:
+        try:
+            v = judge(jc)
+            ok = not v.get("violates")
+        except Exception as e:  # noqa: BLE001
+            ok = False
+            v = dict(detail=f"judge raised {type(e).__name__}: {e}")
+        w.contract("judge_accepts_clean_case", ok)
+        if not ok and len(w.notes) < 5:
+            w.notes.append(f"judge flagged {json.dumps(jc['desc'])[:400]}: {v.get('detail', '')[:300]}")
 
     return w.finish(
         rule="random circuits on 2-5 qubits over h/x/s/sdg/t/sx/rx/ry/rz and cx/cz/rzz/swap/iswap (dyadic angles), explicit partition "
@@ -823,7 +999,12 @@ def generate(rng, tier, outdir):
              "TwoQubitQPDGates inside a partition (both halves in one partition), Move-based wire cuts via cut_wires on CutWire markers "
              "(+ expand_observables), unseparated circuits via partition_circuit_qubits / cut_gates / cut_wires; Pauli lists with "
              "duplicates, identity restricted to a whole partition, several commuting groups; budgets {1,2,2.5,4,10,64,100,5000,inf} "
-             "under random numpy seeds, the weights dictionary re-read with the same seed; a dedicated stream of rzz cuts under small "
+             "plus random integers in 1..5000, non-dyadic floats, 1.0 / numpy ints and floats / True, "
+             "under random numpy seeds, the weights dictionary re-read with the same seed; resets (leading, mid-circuit, trailing) and "
+             "barriers in the circuits; history mutations (placeholder definitions read before the call, an earlier generation on the same "
+             "objects, one circuit object under two labels, cut ids written +k / 0k / ' k'); a near-cut-off stream (rzz angles 1e-4, "
+             "2^-13, 2^-20, 2^-24 under N=inf and N>=1000); a many-cuts stream (11-13 cuts, two-digit cut ids, N<=10); a stream with a reset "
+             "as the last instruction on a measured qubit; a dedicated stream of rzz cuts under small "
              "budgets {2.5,3,3.5,4,5,6} (EXACT and SAMPLED entries mixed, sampled entries outweighing exact ones, ties); sometimes pre-existing classical bits, "
              "observables dict in another order / missing a partition, trailing resets. Malformed stream: type mismatches both ways, "
              "num_samples in {0, 0.5, 0.999, -1, nan, -inf}, missing / non-numeric label suffix, shifted cut ids, foreign observable "
@@ -836,7 +1017,7 @@ def generate(rng, tier, outdir):
 # property-level oracle (independent of the Coq model)
 # ------------------------------------------------------------------------------------------------
 def _is_sub_resets(expected, got):
-    """got == expected with some reset instructions deleted."""
+    """got == expected with some reset instructions deleted (global instruction order kept)."""
     i = 0
     for x in expected:
         if i < len(got) and got[i] == x:
@@ -846,6 +1027,50 @@ def _is_sub_resets(expected, got):
         else:
             return False
     return i == len(got)
+
+
+def _reset_rule(expected, got, nq, ignore_last):
+    """Independent statement of which resets may disappear (property C19's second clause, C12's passes):
+    on every qubit wire a run of consecutive resets may shrink to nothing only when it stands before the first other
+    instruction of the wire or after the last one; a run between two other instructions must keep at least one reset.
+    `ignore_last` = index (in `expected`) of the placeholder measurement of an identity group: its outcome is discarded,
+    so it does not count as 'another instruction' (resets before it are still final)."""
+    if not _is_sub_resets(expected, got):
+        return "not the expected instruction sequence with some resets deleted"
+    for q in range(nq):
+        def runs(seq, skip=None):
+            out = [0]
+            for k, x in enumerate(seq):
+                if q not in x["qs"]:
+                    continue
+                if x["op"][0] == "reset":
+                    out[-1] += 1
+                elif skip is not None and k == skip:
+                    continue
+                else:
+                    out.append(0)
+            return out
+        # position of the ignored instruction in `got`: it is a non-reset, so it is the same ordinal among non-resets
+        skip_g = None
+        if ignore_last is not None:
+            ordinal = sum(1 for x in expected[:ignore_last] if x["op"][0] != "reset")
+            cnt = 0
+            for k, x in enumerate(got):
+                if x["op"][0] != "reset":
+                    if cnt == ordinal:
+                        skip_g = k
+                        break
+                    cnt += 1
+        re_, rg = runs(expected, ignore_last), runs(got, skip_g)
+        if len(re_) != len(rg):
+            return f"qubit {q}: different non-reset instructions"
+        for k, (a, b) in enumerate(zip(re_, rg)):
+            if b > a:
+                return f"qubit {q}: more resets than expected"
+            if 0 < k < len(re_) - 1 and a > 0 and b == 0:
+                return (f"qubit {q}: a reset between two other instructions of the wire was removed "
+                        f"(neither leading, nor final, nor a duplicate)")
+    return None
 
 
 def _strip(ins):
@@ -938,33 +1163,40 @@ def judge(case):
     kappa = 1.0
     for b in bases:
         kappa *= sum(abs(c) for c in b["coeffs"])
-    order = sorted(range(len(weights)), key=lambda i: weights[i][1], reverse=True)     # stable, descending
-    if len(coeffs) != len(weights):
-        problems.append(f"{len(coeffs)} coefficients for {len(weights)} distinct sampled joint maps")
-    else:
-        total = sum(w[1] for w in weights)
-        prods = []
-        for z, i in enumerate(order):
-            ids, wgt, typ = weights[i]
-            p = 1.0
-            for b, m in zip(bases, ids):
-                p *= b["coeffs"][m]
-            prods.append(p)
-            want = wgt / total * kappa * (0 if p == 0 else math.copysign(1, p))
-            got = float(coeffs[z][0])
-            if abs(want - got) > 1e-9 * max(1.0, kappa):
-                problems.append(f"coefficient {z}: {got} but weight/total*kappa*sign = {want}")
-            if p != 0 and got != 0 and (got > 0) != (p > 0):
-                problems.append(f"coefficient {z} has the wrong sign")
-            if coeffs[z][1] != typ:
-                problems.append(f"coefficient {z} has weight type {coeffs[z][1]}, sampled entry has {typ}")
-            if desc["N"] == "inf" and abs(got - p) > 1e-9:
-                problems.append(f"infinite budget: coefficient {z} = {got} but product of map coefficients = {p}")
-        if all(p != 0 for p in prods) and abs(sum(abs(float(c[0])) for c in coeffs) - kappa) > 1e-9 * max(1.0, kappa):
-            problems.append(f"sum |coeff| = {sum(abs(float(c[0])) for c in coeffs)} but kappa = {kappa}")
-    # ---- circuits ----
     env = case["env"]
     gh, gsx = case["gh"], case["gsx"]
+    is_inf = desc["N"] == "inf"
+
+    def product(ids):
+        p = 1.0
+        for b, m in zip(bases, ids):
+            p *= b["coeffs"][m]
+        return p
+
+    # ---- infinite budget: one coefficient per joint map of non-zero probability (up to the documented 1e-14 cut-off) ----
+    if is_inf and bases:
+        import itertools
+        nmaps = 1
+        for b in bases:
+            nmaps *= len(b["coeffs"])
+        if nmaps <= 60000:
+            need = set()
+            for ids in itertools.product(*[range(len(b["coeffs"])) for b in bases]):
+                pr = abs(product(ids)) / kappa
+                if pr >= 1.5e-14:          # clearly above the cut-off (binary64 noise near 1e-14 is not judged)
+                    need.add(tuple(ids))
+            have = {tuple(w[0]) for w in weights}
+            missing = sorted(need - have)
+            if len(coeffs) < len(need) or missing:
+                problems.append(f"infinite budget: {len(need)} joint maps have non-zero probability (>1e-14) but {len(coeffs)} coefficients were "
+                                f"returned; e.g. joint map {list(missing[0]) if missing else '?'} with probability "
+                                f"{abs(product(missing[0])) / kappa if missing else '?'} is absent")
+    if len(coeffs) != len(weights):
+        problems.append(f"{len(coeffs)} coefficients for {len(weights)} distinct sampled joint maps")
+        return dict(violates=True, detail="; ".join(problems[:6]))
+    total = sum(w[1] for w in weights)
+
+    # ---- partitions ----
     if case["circuits"][0] == "single":
         parts = [(None, case["circuits"][1], case["observables"][1], impl[1][1] if impl[1][0] == "list" else None)]
         if impl[1][0] != "list":
@@ -981,6 +1213,7 @@ def judge(case):
             parts.append((e[1], circs.get(e[1]), e[2], outd.get(e[1])))
         if set(outd) != {e[1] for e in case["observables"][1]}:
             problems.append("output keys differ from the observables' partition labels")
+    usable = []
     for (l, mc, groups, got) in parts:
         if mc is None or got is None or groups[0] != "ok":
             problems.append(f"partition {l}: missing circuit/output/groups")
@@ -989,29 +1222,79 @@ def judge(case):
         if len(got) != len(weights) * G:
             problems.append(f"partition {l}: {len(got)} circuits, expected #coefficients x #groups = {len(weights)} x {G}")
             continue
-        for z, i in enumerate(order):
-            joint = weights[i][0]
-            for j, (general, pidx) in enumerate(groups[1]):
+        usable.append((l, mc, groups[1], got, G))
+
+    def coeff_problem(z, i):
+        ids, wgt, typ = weights[i]
+        p = product(ids)
+        want = wgt / total * kappa * (0 if p == 0 else math.copysign(1, p))
+        got = float(coeffs[z][0])
+        if abs(want - got) > 1e-9 * max(1.0, kappa):
+            return f"coefficient {z}: {got} but weight/total*kappa*sign = {want} for joint map {ids}"
+        if p != 0 and got != 0 and (got > 0) != (p > 0):
+            return f"coefficient {z} has the wrong sign for joint map {ids}"
+        if coeffs[z][1] != typ:
+            return f"coefficient {z} has weight type {coeffs[z][1]}, sampled entry {ids} has {typ}"
+        if is_inf and abs(got - p) > 1e-9:
+            return f"infinite budget: coefficient {z} = {got} but product of map coefficients = {p}"
+        return None
+
+    def block_problem(z, i):
+        joint = weights[i][0]
+        for (l, mc, groups, got, G) in usable:
+            for j, (general, pidx) in enumerate(groups):
                 g = got[z * G + j]
                 try:
                     exp, nobs, nqpd = _expected_circuit(mc, env, joint, separated, general, pidx, gh, gsx)
                 except Exception as ex:  # noqa: BLE001
-                    problems.append(f"partition {l}: cannot rebuild: {ex}")
-                    break
+                    return f"partition {l}: cannot rebuild: {ex}"
                 gd = [_strip(x) for x in g["data"]]
                 if any(x["op"][0] in ("qpd1", "qpd2", "qpd_measure") for x in gd):
-                    problems.append(f"partition {l} circuit {z * G + j}: placeholder instruction left")
-                if not _is_sub_resets(exp, gd):
-                    problems.append(f"partition {l} circuit {z * G + j} (sample {z}, group {j}) is not the direct splice followed by the "
-                                    f"measurement suffix (modulo removed resets)")
+                    return f"partition {l} circuit {z * G + j}: placeholder instruction left"
+                why = _reset_rule(exp, gd, mc["nq"], (len(exp) - 1) if not pidx else None)
+                if why:
+                    return (f"partition {l} circuit {z * G + j} (sample {z}, group {j}, joint map {joint}) is not the direct splice followed "
+                            f"by the measurement suffix up to removable resets: {why}")
                 nc0 = mc["nc"]
                 regs = g["cregs"]
                 if (len(regs) < 2 or regs[-2] != [OBS_NAME, list(range(nc0, nc0 + nobs))]
                         or regs[-1] != [QPD_NAME, list(range(nc0 + nobs, nc0 + nobs + nqpd))] or g["nc"] != nc0 + nobs + nqpd
                         or regs[:-2] != mc["cregs"] or g["nq"] != mc["nq"]):
-                    problems.append(f"partition {l} circuit {z * G + j}: classical register layout {regs} (nc0={nc0}, nobs={nobs}, nqpd={nqpd})")
-            if len(problems) > 5:
+                    return f"partition {l} circuit {z * G + j}: classical register layout {regs} (nc0={nc0}, nobs={nobs}, nqpd={nqpd})"
+        return None
+
+    # ---- which sampled joint map does coefficient z / block z belong to?  The property fixes no order among the samples; it
+    #      demands that coefficient z and the z-th block of every partition belong to the SAME joint map, each map used once.
+    #      Candidates are tried in the documented order (descending weight, ties in dictionary order) first. ----
+    pref = sorted(range(len(weights)), key=lambda i: weights[i][1], reverse=True)
+    unused = list(pref)
+    nprob = 0
+    for z in range(len(weights)):
+        chosen, first_why = None, None
+        for i in unused:
+            why = coeff_problem(z, i)
+            if why is None:
+                why = block_problem(z, i)
+            if why is None:
+                chosen = i
                 break
+            if first_why is None:
+                first_why = why
+            if abs(weights[i][1] - weights[unused[0]][1]) > 1e-12 * max(1.0, abs(weights[unused[0]][1])) and len(unused) > 64:
+                break       # large cases: only the tie class of the preferred candidate is searched
+        if chosen is None:
+            problems.append(f"no unused sampled joint map fits coefficient {z} together with block {z} of every partition; "
+                            f"for the documented candidate: {first_why}")
+            nprob += 1
+            unused.pop(0)
+            if nprob > 3:
+                break
+        else:
+            unused.remove(chosen)
+    if len(weights) and len(problems) == 0:
+        prods = [product(w[0]) for w in weights]
+        if all(p != 0 for p in prods) and abs(sum(abs(float(c[0])) for c in coeffs) - kappa) > 1e-9 * max(1.0, kappa):
+            problems.append(f"sum |coeff| = {sum(abs(float(c[0])) for c in coeffs)} but kappa = {kappa}")
     if case.get("side_notes"):
         problems.extend(case["side_notes"])
     return dict(violates=bool(problems), detail="; ".join(problems[:6]) if problems else "contract holds on this input")
